@@ -341,17 +341,17 @@ package eventbus
 //@   loop 2 ghoststep ko := arrayOf(koStep, int, ko, i, len(handlers__2) == iterold(len(handlers__2)) - 1)
 //@   loop 2 invariant [C01.rm.subset] {C01,C02} forall k int :: {handlers__2[k]} 0 <= k && k < len(handlers__2) ==>
 //@        0 <= ko[k] && ko[k] < len(acq(shard.handlers[eventType])) && handlers__2[k] == acqat(shard.handlers[eventType], ko[k]) && (k > 0 ==> ko[k - 1] < ko[k])
-//@   loop 2 invariant [C01.rm.kept] {C01,C02} forall m int :: {kp[m]} 0 <= m && m < len(acq(shard.handlers[eventType])) && dead[m] == 0 ==>
+//@   loop 2 invariant [C01.rm.kept] {C01,C02,C04} forall m int :: {kp[m]} 0 <= m && m < len(acq(shard.handlers[eventType])) && dead[m] == 0 ==>
 //@        0 <= kp[m] && kp[m] < len(handlers__2) && handlers__2[kp[m]] == acqat(shard.handlers[eventType], m)
 //@   loop 2 invariant [C01.rm.order] {C01,C02} forall m1 int, m2 int :: {kp[m1], kp[m2]} 0 <= m1 && m1 < m2 && m2 < len(acq(shard.handlers[eventType])) && dead[m1] == 0 && dead[m2] == 0 ==> kp[m1] < kp[m2]
-//@   loop 2 invariant [C01.rm.dead] {C01,C02} forall m int :: {dead[m]} 0 <= m && m < len(acq(shard.handlers[eventType])) && dead[m] != 0 ==>
+//@   loop 2 invariant [C01.rm.dead] {C01,C02,C04} forall m int :: {dead[m]} 0 <= m && m < len(acq(shard.handlers[eventType])) && dead[m] != 0 ==>
 //@        0 <= deadBy[m] && deadBy[m] <= rangeindex__2 && onceHandlersToRemove[deadBy[m]] == acqat(shard.handlers[eventType], m)
 //@   loop 2 invariant [rm.R.stable] seqeq(onceHandlersToRemove, loopentry(onceHandlersToRemove)) && sarr(onceHandlersToRemove) != sarr(handlers__2)
 //@   loop 3 invariant [idx3] rangeindex__3 < len(handlers__2) && -1 <= rangeindex__3
 //@   loop 3 invariant [rm.nomatch] forall k int :: {handlers__2[k]} 0 <= k && k <= rangeindex__3 ==> handlers__2[k] != onceHandler
 //@   loop 3 invariant [rm.inner.stable] handlers__2 == loopentry(handlers__2) && seqeq(handlers__2, loopentry(handlers__2))
 //@   ensures [C04.rm.section] {C04,C01} cnt(lockShard) == 1 + ite(len(onceHandlersToRemove) > 0, 1, 0) && cnt(unlockShard) == cnt(lockShard)
-//@   at unlock:shard.mu#W1 assert [C01.rm.kept.final] {C01,C02} forall m int :: {kp[m]} 0 <= m && m < len(acq(shard.handlers[eventType])) &&
+//@   at unlock:shard.mu#W1 assert [C01.rm.kept.final] {C01,C02,C04} forall m int :: {kp[m]} 0 <= m && m < len(acq(shard.handlers[eventType])) &&
 //@        (forall q int :: {onceHandlersToRemove[q]} 0 <= q && q < len(onceHandlersToRemove) ==> acqat(shard.handlers[eventType], m) != onceHandlersToRemove[q]) ==>
 //@        0 <= kp[m] && kp[m] < len(shard.handlers[eventType]) && shard.handlers[eventType][kp[m]] == acqat(shard.handlers[eventType], m)
 //@   at unlock:shard.mu#W1 assert [C01.rm.order.final] {C01,C02} forall m1 int, m2 int :: {kp[m1], kp[m2]} 0 <= m1 && m1 < m2 && m2 < len(acq(shard.handlers[eventType])) && dead[m1] == 0 && dead[m2] == 0 ==> kp[m1] < kp[m2]
@@ -529,9 +529,9 @@ package eventbus
 //@ func WithStore$1$1
 //@   props C09
 //@   requires bus != nil && ctx != nil && event != nil
-//@   ensures [C09.persistsOnce] cnt(persistCall) == 1 && lastarg(persistCall, 0) == bus && lastarg(persistCall, 1, Iface) == ctx
+//@   ensures [C09.persistsOnce] {C09,C13} cnt(persistCall) == 1 && lastarg(persistCall, 0) == bus && lastarg(persistCall, 1, Iface) == ctx
 //@        && lastarg(persistCall, 2) == eventType && lastarg(persistCall, 3, Iface) == event
-//@   ensures [C09.chain] cnt(beforeHookCtx) == ite(existingHook != nil, 1, 0)
+//@   ensures [C09.chain] {C09,C08} cnt(beforeHookCtx) == ite(existingHook != nil, 1, 0)
 //@   at call:(*EventBus).persistEvent assert [C09.chain.first] cnt(beforeHookCtx) == ite(existingHook != nil, 1, 0)
 //@   fact persists(self, bus)
 
@@ -546,7 +546,7 @@ package eventbus
 //@ func WithBeforePublishContext$1$1
 //@   props C09
 //@   requires bus != nil && ctx != nil && event != nil
-//@   ensures [C09.persistsOnce] cnt(persistCall) == 1 && lastarg(persistCall, 0) == bus && lastarg(persistCall, 1, Iface) == ctx
+//@   ensures [C09.persistsOnce] {C09,C13} cnt(persistCall) == 1 && lastarg(persistCall, 0) == bus && lastarg(persistCall, 1, Iface) == ctx
 //@        && lastarg(persistCall, 2) == eventType && lastarg(persistCall, 3, Iface) == event
 //@   ensures [C09.chain] cnt(beforeHookCtx) == ite(hook != nil, 1, 0)
 //@   at call:(*EventBus).persistEvent assert [C09.chain.first] cnt(beforeHookCtx) == ite(hook != nil, 1, 0)
@@ -556,7 +556,7 @@ package eventbus
 //@   props C09 C08
 //@   ensures [C08.option.sets] bus.store == nil ==> bus.beforePublishCtx == hook
 //@   requires bus != nil && PersistInv(bus)
-//@   ensures [C09.option.preserves] PersistInv(bus)
+//@   ensures [C09.option.preserves] {C09,C13} PersistInv(bus)
 //@   ensures [C01.option.frame] {C01} bus.shards == old(bus.shards)
 
 //@ func WithPanicHandler$1
@@ -647,6 +647,10 @@ package eventbus
 //@ def edgeDef(r, a, b) exists i int :: 0 <= i && i < len(r.upcasters[a]) && r.upcasters[a][i].ToType == b
 //@ def visDef(m, k) m[k]
 //@ def GR(r) arrayOf2(edgeDef, string, string, r)
+// the types that have an upcaster: a finite set (termination measure of apply's loop)
+//@ def hasUpDef(r, t) len(r.upcasters[t]) > 0
+//@ def UPS(r) arrayOf(hasUpDef, string, r)
+//@ lockinv upcastRegistry.mu(r) [UpInv.finite] {C16} finiteSet(UPS(r))
 //@ def VS(m) arrayOf(visDef, string, m)
 
 // Depth-first search with a shared visited set.  True is sound (a path exists).
@@ -664,10 +668,18 @@ package eventbus
 //@   loop 1 invariant [C16.dfs.loop.target] !visited[target] && visited[current]
 //@   loop 1 invariant [C16.dfs.loop.succ] forall j int :: {r.upcasters[current][j]} 0 <= j && j <= rangeindex ==> visited[r.upcasters[current][j].ToType]
 //@   loop 1 invariant [C16.dfs.loop.closed] forall v string, w string :: {GR(r)[v][w]} visited[v] && !old(visited[v]) && v != current && GR(r)[v][w] ==> visited[w]
+// termination of the recursion: the number of types that have an upcaster and are not yet marked
+// (finite: UpInv.finite) is smaller at every recursive call - `current` has an upcaster there and has just been marked
+//@   decreases unvisited(UPS(r), arrayOf(markDef, string, visited))
+//@   at call:(*upcastRegistry).hasCycleDFS assert [C16.dfs.marks] UPS(r)[current] && !old(visited[current]) &&
+//@        isAddElem(old(arrayOf(markDef, string, visited)), loopentry(arrayOf(markDef, string, visited)), current) &&
+//@        isSubset(arrayOf(markDef, string, visited), loopentry(arrayOf(markDef, string, visited)))
 //@   ensures [C16.dfs.sound] result ==> reach(GR(r), current, target)
 //@   ensures [C16.dfs.grow] forall k string :: {visited[k]} old(visited[k]) ==> visited[k]
 //@   ensures [C16.dfs.visited] !result ==> visited[current] && !visited[target]
 //@   ensures [C16.dfs.closed] !result ==> (forall v string, w string :: {GR(r)[v][w]} visited[v] && !old(visited[v]) && GR(r)[v][w] ==> visited[w])
+// called with nothing marked (the top-level call): the marked set is closed under edges
+//@   ensures [C16.dfs.closedset] !result && (forall k string :: {old(visited[k])} !old(visited[k])) ==> closedSet(GR(r), arrayOf(markDef, string, visited))
 
 //@ func (*upcastRegistry).wouldCreateCycle
 //@   props C16
@@ -687,23 +699,26 @@ package eventbus
 //@   at unlock:upcastRegistry.mu assert [C16.register.edge.new] err == nil ==> GR(r)[fromType][toType]
 //@   at unlock:upcastRegistry.mu assert [C16.register.edge.only] err == nil ==> (forall a string, b string :: {GR(r)[a][b]} GR(r)[a][b] ==> acq(GR(r))[a][b] || (a == fromType && b == toType))
 //@   at unlock:upcastRegistry.mu assert [C16.register.edge] err == nil ==> isAddEdge(acq(GR(r)), GR(r), fromType, toType)
-//@   at unlock:upcastRegistry.mu assert [C16.register.append] err == nil ==>
+//@   at unlock:upcastRegistry.mu assert [C16.register.append] {C16,C17} err == nil ==>
 //@        len(r.upcasters[fromType]) == len(acq(r.upcasters[fromType])) + 1 &&
 //@        r.upcasters[fromType][len(r.upcasters[fromType]) - 1].FromType == fromType &&
 //@        r.upcasters[fromType][len(r.upcasters[fromType]) - 1].ToType == toType &&
 //@        r.upcasters[fromType][len(r.upcasters[fromType]) - 1].Upcast == upcast &&
 //@        (forall i int :: {r.upcasters[fromType][i]} 0 <= i && i < len(acq(r.upcasters[fromType])) ==> r.upcasters[fromType][i] == acq(r.upcasters[fromType][i]))
-//@   at unlock:upcastRegistry.mu assert [C16.register.others] err == nil ==>
+//@   at unlock:upcastRegistry.mu assert [C16.register.others] {C16,C17} err == nil ==>
 //@        (forall t string, i int :: {r.upcasters[t][i]} t != fromType && 0 <= i && i < len(acq(r.upcasters[t])) ==>
 //@            len(r.upcasters[t]) == len(acq(r.upcasters[t])) && r.upcasters[t][i] == acq(r.upcasters[t][i]))
+//@   at unlock:upcastRegistry.mu assert [C16.register.keys] err == nil ==> isAddElem(acq(UPS(r)), UPS(r), fromType)
 //@   at unlock:upcastRegistry.mu assert [C16.register.frame] err != nil ==>
 //@        (forall t string :: len(r.upcasters[t]) == len(acq(r.upcasters[t])))
+//@   at unlock:upcastRegistry.mu assert [C16.register.keys.same] err != nil ==> isSubset(acq(UPS(r)), UPS(r))
 
 //@ func (*upcastRegistry).clear
 //@   props C16
 //@   requires r != nil
 //@   at unlock:upcastRegistry.mu assert [C16.clear] forall t string :: len(r.upcasters[t]) == 0
 //@   at unlock:upcastRegistry.mu assert [C16.clear.edges] forall a string, b string :: {GR(r)[a][b]} !GR(r)[a][b]
+//@   at unlock:upcastRegistry.mu assert [C16.clear.keys] forall t string :: {UPS(r)[t]} !UPS(r)[t]
 
 //@ func (*upcastRegistry).clearType
 //@   props C16
@@ -712,6 +727,7 @@ package eventbus
 //@        (forall t string :: t != eventType ==> r.upcasters[t] == acq(r.upcasters[t]))
 //@   at unlock:upcastRegistry.mu assert [C16.clearType.edges] forall a string, b string :: {GR(r)[a][b]} GR(r)[a][b] ==> a != eventType && acq(GR(r))[a][b]
 //@   at unlock:upcastRegistry.mu assert [C16.clearType.sub] isSubgraph(acq(GR(r)), GR(r))
+//@   at unlock:upcastRegistry.mu assert [C16.clearType.keys] isSubset(acq(UPS(r)), UPS(r))
 
 //@ func RegisterUpcastFunc
 //@   props C16
@@ -746,7 +762,7 @@ package eventbus
 //@ level MemoryStore.mu 2
 // Stored events are never modified after they are created (callers are
 // assumed not to mutate the *StoredEvent values a store hands out).
-//@ immutable {C10,C11,C12,C17} StoredEvent.Offset StoredEvent.Type StoredEvent.Data StoredEvent.Timestamp
+//@ immutable {C10,C11,C12,C15,C17} StoredEvent.Offset StoredEvent.Type StoredEvent.Data StoredEvent.Timestamp
 //@ event lockMem := call lock:MemoryStore.mu
 //@ event unlockMem := call unlock:MemoryStore.mu
 
@@ -970,6 +986,13 @@ package eventbus
 //@            (forall t string :: {appliedTypes[t]} appliedTypes[t] ==> t == eventType)) &&
 //@        (cnt(upcastCall) >= 2 ==> firstUp(r, upType(firstUp(r, eventType), data)) != 0)
 //@   loop 1 invariant [C16.apply.freshMark] {C16} !appliedTypes[currentType]
+// termination: every iteration that reaches the back edge marks a type that has an upcaster and was not marked before;
+// the set of such types is finite (UpInv.finite), so the number of unmarked ones is a variant
+//@ def markDef(m, t) m[t]
+//@   loop 1 invariant [C16.apply.stable] {C16} forall t string :: len(r.upcasters[t]) == loopentry(len(r.upcasters[t]))
+//@   loop 1 iter [C16.apply.marks] {C16} isAddElem(iterold(arrayOf(markDef, string, appliedTypes)), arrayOf(markDef, string, appliedTypes), iterold(currentType)) && UPS(r)[iterold(currentType)]
+//@   loop 1 iter [C16.apply.variant] {C16} 0 <= iterold(unvisited(UPS(r), arrayOf(markDef, string, appliedTypes))) &&
+//@        unvisited(UPS(r), arrayOf(markDef, string, appliedTypes)) < iterold(unvisited(UPS(r), arrayOf(markDef, string, appliedTypes)))
 //@   ensures [C17.apply.ok] {C17} result2 == nil ==> result0 == acq(chainD(arrayOf(firstUp, string, r), data, eventType)) &&
 //@        result1 == acq(chainT(arrayOf(firstUp, string, r), data, eventType)) && acq(chainOK(arrayOf(firstUp, string, r), data, eventType))
 // completeness for the cases without any possibility of a repeated type: no upcaster at all, or one successful step to a type without upcaster
@@ -994,6 +1017,8 @@ package eventbus
 //@        lastarg(replayCb, 1, *StoredEvent).Data == lastresi(applyCall, 0, String) && lastarg(replayCb, 1, *StoredEvent).Type == lastresi(applyCall, 1, String) &&
 //@        lastarg(replayCb, 1, *StoredEvent).Offset == event.Offset && lastarg(replayCb, 1, *StoredEvent).Timestamp == event.Timestamp &&
 //@        lastarg(applyCall, 1, String) == event.Data && lastarg(applyCall, 2, String) == event.Type && cnt(applyCall) == 1
+// the replayed record itself is never rewritten (it may be the store's own copy): its persisted name and data stay
+//@   ensures [C15.cb.storedname] {C15,C17} event.Type == old(event.Type) && event.Data == old(event.Data)
 //@   ensures [C17.cb.fallback] bus.upcastRegistry == nil || lastresi(applyCall, 2, Iface) != nil ==> lastarg(replayCb, 1) == event
 
 //@ func (*EventBus).ReplayWithUpcast
@@ -1031,7 +1056,7 @@ package eventbus
 
 // The live handler: the user's handler, then save bus.lastOffset (read under storeMu).
 //@ func SubscribeWithReplay$2
-//@   props C12
+//@   props C12 C05
 //@   maypanic
 //@   requires bus != nil && handler != nil && subStore != nil && ctx != nil
 //@   ensures [C12.live.handled] cnt(handlerCall) == 1 && lastarg(handlerCall, 0) == handler && lastarg(handlerCall, 1) == event
